@@ -54,9 +54,20 @@ def build_catalog(recipe, root):
     rng = np.random.default_rng([recipe['seed'], 77])
     if recipe['kind'] == 'lc':
         return catgen.make_lc_catalog(root, rng, nhalo=recipe['nhalo'])
-    return catgen.make_catalog(root, rng, nslabs=len(recipe['nhalos']), nhalos=list(recipe['nhalos']),
-                               cleaned=recipe['cleaned'], slab_indices=list(recipe['inds']),
-                               cleaned_away_frac=recipe.get('away', 0.25))
+    trunc = recipe.get('trunc')
+    cat = catgen.make_catalog(root, rng, nslabs=len(recipe['nhalos']), nhalos=list(recipe['nhalos']),
+                              cleaned=recipe['cleaned'], slab_indices=list(recipe['inds']),
+                              cleaned_away_frac=recipe.get('away', 0.25), write=not trunc)
+    if trunc:
+        # NOT well-formed on purpose: cut the particle files of superslab 0 short, so that halo ranges run past
+        # the end (the reader's slices are clipped there); only the model correspondence uses such trees
+        sl = cat.slabs[0]
+        for AB in 'AB':
+            keep = max(0, len(sl.pid[AB]) - int(trunc))
+            sl.rv[AB] = sl.rv[AB][:keep]
+            sl.pid[AB] = sl.pid[AB][:keep]
+        catgen.write_catalog(cat)
+    return cat
 
 
 class Truth:
@@ -88,6 +99,17 @@ class Truth:
         self.rv = np.concatenate(rv) if rv else np.empty((0, 3), np.int32)
         self.pid = np.concatenate(pid) if pid else np.empty(0, np.uint64)
         self.ntok = n
+
+    def well_formed(self, case):
+        """do all kept halos' ranges lie inside their files?  (the oracle's precondition)"""
+        ab, _ = resolve_subsamples(case['opts'])
+        for (s, j) in expected_rows(self, case):
+            sl = self.cat.slabs[s]
+            away = case['opts']['cleaned'] and int(sl.clean['N_total'][j]) == 0
+            for X in ab:
+                if not away and int(sl.raw['npstart' + X][j]) + int(sl.raw['npout' + X][j]) > len(sl.pid[X]):
+                    return False
+        return True
 
     def has_clean(self):
         return (not self.lc) and all(bool(sl.clean) for sl in self.cat.slabs)
@@ -565,16 +587,19 @@ def compare_model(ctx, truth, case, obs, m):
         if len(m['sub']) != obs['nsub']:
             ctx.disagree('subsample table length', case, len(m['sub']), obs['nsub'])
             return False
-        if None in m['sub']:
+        wfd = truth.well_formed(case)
+        if None in m['sub'] and wfd:
             ctx.disagree('model leaves table cells unwritten', case, m['sub'], 'n/a')
             return False
-        if m['widx'] != list(range(obs['nsub'])):
+        if wfd and m['widx'] != list(range(obs['nsub'])):
             ctx.disagree('model write indices are not 0..N-1 in order', case, m['widx'], obs['nsub'])
             good = False
-        toks = m['sub']
+        # cells the model leaves unwritten (ill-formed input only) hold np.empty garbage in the real table
+        written = np.array([t is not None for t in m['sub']], dtype=bool)
+        toks = [t for t in m['sub'] if t is not None]
         for col in sorted(set(obs['sub_cols']) & (set(PID_COLS) | {'pos', 'vel', 'rvint'})):
             exp = decode_expected(truth, toks, col, obs['box'], obs['ppd'])
-            got = obs['sub'][col]
+            got = obs['sub'][col][written]
             if got.shape != exp.shape or not np.array_equal(got, exp):
                 bad = [int(k) for k in range(min(len(got), len(exp))) if not np.array_equal(got[k], exp[k])][:5]
                 ctx.disagree('subsample table column %s differs word for word (first cells %s)' % (col, bad),
